@@ -58,6 +58,7 @@ type Result struct {
 	Cut        bool             `json:"cut"`
 	MaxDev     int              `json:"max_dev"`
 	Redundant  int64            `json:"redundant"`
+	Horizons   [][]int          `json:"horizons,omitempty"`
 }
 
 func newResult(name string, dev int) *Result {
@@ -148,6 +149,13 @@ func (e *explorer) account(x vsched.ExecResult, cost int, prefix []int, counted 
 	if x.Outcome == vsched.Diverged {
 		r.Diverged++
 		return
+	}
+	if x.Outcome == vsched.Horizon && len(r.Horizons) < 2 {
+		p, _ := picks(x.Choices)
+		if len(p) > 400 {
+			p = p[:400]
+		}
+		r.Horizons = append(r.Horizons, p)
 	}
 	fs := failKeys(x, e.sc)
 	if len(fs) == 0 {
@@ -260,6 +268,9 @@ func merge(a, b *Result) {
 	}
 	a.SumSteps += b.SumSteps
 	a.Found = append(a.Found, b.Found...)
+	if len(a.Horizons) < 2 {
+		a.Horizons = append(a.Horizons, b.Horizons...)
+	}
 	a.Flaky += b.Flaky
 	a.Diverged += b.Diverged
 	a.Cut = a.Cut || b.Cut
@@ -391,6 +402,12 @@ func Main(su Suite, replayPath string) int {
 		run.Note(fmt.Sprintf("%s: max_dev=%d executions=%d by_cost=%v outcomes=%v max_choice_points=%d max_steps=%d avg_steps=%d distinct_outcomes=%d",
 			name, r.MaxDev, r.Executions, r.ByCost, r.Outcomes, r.MaxChoices, r.MaxSteps, r.SumSteps/max64(1, r.Executions), len(r.Distinct)))
 		run.Sample(map[string]any{"scenario": name, "max_deviations": r.MaxDev, "example_outcomes": outs})
+		if len(r.Horizons) > 0 {
+			run.NotExhaustive(fmt.Sprintf("%s: %d executions reached the step horizon before finishing (not evaluated by the end-of-run oracle)", name, r.Outcomes["horizon"]))
+			_ = os.MkdirAll(ev.Root+"/replays", 0o755)
+			b, _ := json.Marshal(map[string]any{"first": map[string]any{"key": "horizon", "replay": map[string]any{"scenario": name, "choices": r.Horizons[0]}}})
+			_ = os.WriteFile(fmt.Sprintf("%s/replays/%s-horizon-%s.json", ev.Root, su.Property, name), b, 0o644)
+		}
 		sort.SliceStable(r.Found, func(i, j int) bool { return r.Found[i].Cost < r.Found[j].Cost })
 		for _, f := range r.Found {
 			run.Violate(ev.Violation{Key: f.Key, Harness: name, Message: f.Msg,
